@@ -876,7 +876,8 @@ Proof.
     destruct (po_tag p) eqn:Ht.
     + apply Hgen. exact H.
     + apply Hgen. exact H.
-    + exfalso. destruct (kf_ebnf text && po_same p); [exact (v_ok_not_kf _ _ H)|exact (v_ok_not_bad _ _ _ H)].
+    + exfalso. destruct (kf_ebnf text && po_same p); [exact (v_ok_not_kf _ _ H)|].
+      destruct (kf_empty_eq text && po_same p); [exact (v_ok_not_kf _ _ H)|exact (v_ok_not_bad _ _ _ H)].
   - exfalso. destruct (kf_mika_close text); [exact (v_ok_not_kf _ _ H)|].
     destruct (kf_exp_nesting text); [exact (v_ok_not_kf _ _ H)|exact (v_ok_not_bad _ _ _ H)].
   - exfalso. destruct (kf_mika_close text); [exact (v_ok_not_kf _ _ H)|].
@@ -933,6 +934,7 @@ Theorem judge_kf_narrow : forall text o id,
   (id = "exp-nesting"%string /\ o = RHang /\ kf_mika_close text = false /\ nest_threshold <= nest_depth text) \/
   (id = "stack-overflow-prefix-run"%string /\ o = RAbort /\ kf_mika_close text = false /\ run_threshold <= max_prefix_run text) \/
   (id = "ebnf-todo-panic"%string /\ exists p, o = RParse p /\ po_tag p = TgPanic /\ po_same p = true /\ kf_ebnf text = true) \/
+  (id = "empty-inline-equation"%string /\ exists p, o = RParse p /\ po_tag p = TgPanic /\ po_same p = true /\ kf_empty_eq text = true) \/
   (id = "fence-zero-range"%string /\ exists p, o = RParse p /\ po_tag p <> TgPanic /\ kf_fence_zero text = true /\
       existsb is_zero (po_causes p) = true /\ obs_corb text p true = true /\ flags_matchb text p = true) \/
   (id = "fmt-count-underflow"%string /\ exists p, o = RParse p /\ po_flags p = ["fmtpanic"%string] /\
@@ -975,11 +977,14 @@ Proof.
         + apply obs_corb_sound; [|reflexivity].
           unfold obs_corb in *. cbn [po_tag po_same po_causes po_annots po_nlines po_lens po_widths po_hook]. exact Hstrict. }
     destruct (po_tag p) eqn:Ht.
-    + destruct (Hgen ltac:(discriminate) H) as [G|G]; [right; right; right; right; left; exact G|right; right; right; right; right; exact G].
-    + destruct (Hgen ltac:(discriminate) H) as [G|G]; [right; right; right; right; left; exact G|right; right; right; right; right; exact G].
-    + destruct (kf_ebnf text && po_same p) eqn:He; [|inversion H].
-      rewrite andb_true_iff in He. destruct He as [E1 E2].
-      right. right. right. left. inversion H. split; [reflexivity|]. exists p. repeat split; assumption.
+    + destruct (Hgen ltac:(discriminate) H) as [G|G]; [right; right; right; right; right; left; exact G|right; right; right; right; right; right; exact G].
+    + destruct (Hgen ltac:(discriminate) H) as [G|G]; [right; right; right; right; right; left; exact G|right; right; right; right; right; right; exact G].
+    + destruct (kf_ebnf text && po_same p) eqn:He.
+      * rewrite andb_true_iff in He. destruct He as [E1 E2].
+        right. right. right. left. inversion H. split; [reflexivity|]. exists p. repeat split; assumption.
+      * destruct (kf_empty_eq text && po_same p) eqn:He2; [|inversion H].
+        rewrite andb_true_iff in He2. destruct He2 as [E1 E2].
+        right. right. right. right. left. inversion H. split; [reflexivity|]. exists p. repeat split; assumption.
   - destruct (kf_mika_close text) eqn:Hm.
     + left. inversion H. split; [reflexivity|]. split; [left; reflexivity|reflexivity].
     + destruct (kf_exp_nesting text) eqn:Hn; [|inversion H].
